@@ -13,13 +13,14 @@
 #endif
 char* gp_line; char** gpp_pos; const char* gp_arg;
 int g_len, g_off, g_k, g_calls, g_tl, g_num, g_added, g_add_same, g_cadded, v_nret;
-char v_k, v_arg_k, v_arg_end, v_arg_0; double v_ret;
+char v_k, v_arg_k, v_arg_end, v_arg_0, v_c0, v_c1, v_c2, v_c3; double v_ret;
 char nondet_char(void);
 static void havoc_ghosts(void)
 {
    g_len = nondet_int(); g_off = nondet_int(); g_k = nondet_int(); g_tl = nondet_int(); g_num = nondet_int();
    v_k = nondet_char(); v_arg_k = nondet_char(); v_arg_end = nondet_char(); v_arg_0 = nondet_char();
    g_add_same = nondet_int(); v_nret = nondet_int();
+   v_c0 = nondet_char(); v_c1 = nondet_char(); v_c2 = nondet_char(); v_c3 = nondet_char();
 }
 
 #define IS_DIGIT(c) ('0' <= (c) && (c) <= '9')
@@ -27,7 +28,7 @@ static void havoc_ghosts(void)
 #define IS_SPACE(c) ((c) == ' ' || (c) == '\t' || (c) == '\n' || (c) == '\r')
 #define IS_SENSE(c) ((c) == '<' || (c) == '>' || (c) == '=')
 #define IS_VALUE(c) (IS_DIGIT(c) || (c) == '+' || (c) == '-' || (c) == '.')
-#define LOWER(c)    (('A' <= (c) && (c) <= 'Z') ? (c) + 32 : (c))
+#define CI(c, lo, up) ((c) == (lo) || (c) == (up))          /* case-insensitive letter */
 /* the characters that may start a column name: letters and  ! " # $ % & ( ) / , ; ? @ _ ' ` { } | ~  */
 #define IS_NAMESTART(c) (IS_ALPHA(c) || (c) == '!' || (c) == '"' || (c) == '#' || (c) == '$' || (c) == '%' || (c) == '&' \
                          || (c) == '(' || (c) == ')' || (c) == '/' || (c) == ',' || (c) == ';' || (c) == '?' || (c) == '@' \
@@ -41,34 +42,40 @@ static void havoc_ghosts(void)
 /* the ghost index ranges over the text after pos */
 #define GHOST_K(line, off) (0 <= g_k && (g_k < g_len - (off) ? v_k == (line)[(off) + g_k] : 1))
 #define FRESH_OUT(p) __CPROVER_is_fresh(p, sizeof(int))
+/* v_c0..v_c3 are the (up to) four characters at pos, as far as they lie in front of or on the terminator.  Postconditions speak
+ * about these scalars: conditional expressions full of dereferences make the instrumented contract explode, and the line is
+ * in no assigns clause, so the characters are the same before and after the call. */
+#define HEAD4(line, off) (v_c0 == (line)[off] && ((off) + 1 <= g_len ==> v_c1 == (line)[(off) + 1]) \
+                          && ((off) + 2 <= g_len ==> v_c2 == (line)[(off) + 2]) && ((off) + 3 <= g_len ==> v_c3 == (line)[(off) + 3]))
+#define IS_INF4 ((v_c0 == '-' || v_c0 == '+') && CI(v_c1, 'i', 'I') && CI(v_c2, 'n', 'N') && CI(v_c3, 'f', 'F'))
 /* pos ends inside the line */
 #define POS_IN_LINE(off, out) ((off) <= (out) && (out) <= g_len)
 
 /* ======================================================================================================= */
 #ifdef INST_isValue
 int w_isValue(const char* line, int n, int off)
-__CPROVER_requires(LINE_OK(line, n, off))
+__CPROVER_requires(LINE_OK(line, n, off) && HEAD4(line, off))
 __CPROVER_assigns()
-__CPROVER_ensures((__CPROVER_return_value != 0) == IS_VALUE(line[off]))
+__CPROVER_ensures((__CPROVER_return_value != 0) == IS_VALUE(v_c0))
 ;
 void h_isValue(void) { const char* line; int n, off; havoc_ghosts(); w_isValue(line, n, off); CANARY(); }
 #endif
 
 #ifdef INST_isSense
 int w_isSense(const char* line, int n, int off)
-__CPROVER_requires(LINE_OK(line, n, off))
+__CPROVER_requires(LINE_OK(line, n, off) && HEAD4(line, off))
 __CPROVER_assigns()
-__CPROVER_ensures((__CPROVER_return_value != 0) == IS_SENSE(line[off]))
+__CPROVER_ensures((__CPROVER_return_value != 0) == IS_SENSE(v_c0))
 ;
 void h_isSense(void) { const char* line; int n, off; havoc_ghosts(); w_isSense(line, n, off); CANARY(); }
 #endif
 
 #ifdef INST_isColName
 int w_isColName(const char* line, int n, int off)
-__CPROVER_requires(LINE_OK(line, n, off))
+__CPROVER_requires(LINE_OK(line, n, off) && HEAD4(line, off))
 __CPROVER_assigns()
-__CPROVER_ensures((__CPROVER_return_value != 0) == IS_NAMESTART(line[off]))
-__CPROVER_ensures(line[off] == 0 ==> __CPROVER_return_value == 0)
+__CPROVER_ensures((__CPROVER_return_value != 0) == IS_NAMESTART(v_c0))
+__CPROVER_ensures(v_c0 == 0 ==> __CPROVER_return_value == 0)
 ;
 void h_isColName(void) { const char* line; int n, off; havoc_ghosts(); w_isColName(line, n, off); CANARY(); }
 #endif
@@ -76,10 +83,9 @@ void h_isColName(void) { const char* line; int n, off; havoc_ghosts(); w_isColNa
 #ifdef INST_isInfinity
 /* [+-]inf, case-insensitive; must not read behind the terminator (the && chain stops at the first mismatch) */
 int w_isInfinity(const char* line, int n, int off)
-__CPROVER_requires(LINE_OK(line, n, off))
+__CPROVER_requires(LINE_OK(line, n, off) && HEAD4(line, off))
 __CPROVER_assigns()
-__CPROVER_ensures((__CPROVER_return_value != 0) == ((line[off] == '-' || line[off] == '+') && LOWER(line[off + 1]) == 'i'
-                                                     && LOWER(line[off + 2]) == 'n' && LOWER(line[off + 3]) == 'f'))
+__CPROVER_ensures((__CPROVER_return_value != 0) == IS_INF4)
 __CPROVER_ensures(__CPROVER_return_value != 0 ==> off + 4 <= g_len)
 ;
 void h_isInfinity(void) { const char* line; int n, off; havoc_ghosts(); w_isInfinity(line, n, off); CANARY(); }
@@ -88,10 +94,9 @@ void h_isInfinity(void) { const char* line; int n, off; havoc_ghosts(); w_isInfi
 #ifdef INST_isFree
 /* "free", case-insensitive; the caller then does pos += 4, which must stay inside the line */
 int w_isFree(const char* line, int n, int off)
-__CPROVER_requires(LINE_OK(line, n, off))
+__CPROVER_requires(LINE_OK(line, n, off) && HEAD4(line, off))
 __CPROVER_assigns()
-__CPROVER_ensures((__CPROVER_return_value != 0) == (LOWER(line[off]) == 'f' && LOWER(line[off + 1]) == 'r'
-                                                     && LOWER(line[off + 2]) == 'e' && LOWER(line[off + 3]) == 'e'))
+__CPROVER_ensures((__CPROVER_return_value != 0) == (CI(v_c0, 'f', 'F') && CI(v_c1, 'r', 'R') && CI(v_c2, 'e', 'E') && CI(v_c3, 'e', 'E')))
 __CPROVER_ensures(__CPROVER_return_value != 0 ==> off + 4 <= g_len)
 ;
 void h_isFree(void) { const char* line; int n, off; havoc_ghosts(); w_isFree(line, n, off); CANARY(); }
@@ -100,15 +105,14 @@ void h_isFree(void) { const char* line; int n, off; havoc_ghosts(); w_isFree(lin
 /* ======================================================================================================= */
 #ifdef INST_readSense
 /* <, >, =, ==, <=, =<, >=, =>  then one optional blank.  Every call site checks LPFisSense(pos) first. */
-#define TWO(line, off) (IS_SENSE((line)[(off) + 1]))
-#define SLEN(line, off) (TWO(line, off) ? 2 : 1)
 int w_readSense(char* line, int n, int off, int* off_out)
-__CPROVER_requires(LINE_OK(line, n, off) && FRESH_OUT(off_out))
-__CPROVER_requires(IS_SENSE(line[off]))
+__CPROVER_requires(LINE_OK(line, n, off) && HEAD4(line, off) && FRESH_OUT(off_out))
+__CPROVER_requires(IS_SENSE(v_c0))
 __CPROVER_assigns(gp_line, gpp_pos, *off_out)
 __CPROVER_ensures(POS_IN_LINE(off, *off_out) && off < *off_out)
-__CPROVER_ensures(__CPROVER_return_value == ((line[off + 1] == '<' || line[off + 1] == '>') ? line[off + 1] : line[off]))
-__CPROVER_ensures(*off_out == off + SLEN(line, off) + (IS_SPACE(line[off + SLEN(line, off)]) ? 1 : 0))
+__CPROVER_ensures(__CPROVER_return_value == ((v_c1 == '<' || v_c1 == '>') ? v_c1 : v_c0))
+__CPROVER_ensures(!IS_SENSE(v_c1) ==> *off_out == off + 1 + (IS_SPACE(v_c1) ? 1 : 0))
+__CPROVER_ensures(IS_SENSE(v_c1) ==> *off_out == off + 2 + (IS_SPACE(v_c2) ? 1 : 0))
 ;
 void h_readSense(void) { char* line; int n, off; int* off_out; havoc_ghosts(); w_readSense(line, n, off, off_out); CANARY(); }
 #endif
@@ -117,15 +121,15 @@ void h_readSense(void) { char* line; int n, off; int* off_out; havoc_ghosts(); w
 #ifdef INST_hasKeyword
 /* KW_MIN / KW_MAX: number of characters of the keyword outside / including its optional [..] sections; KW_FIRST its
  * first (mandatory) character.  (Given per instance in unit.json; the keyword literal itself is extracted from the tree.) */
-int w_hasKeyword(char* line, int n, int off, int* off_out)
-__CPROVER_requires(LINE_OK(line, n, off) && FRESH_OUT(off_out))
-__CPROVER_assigns(gp_line, gpp_pos, *off_out)
-__CPROVER_ensures(POS_IN_LINE(off, *off_out))
+int w_hasKeyword(char* line, int n, int off, int* off_out, int* end_out)   /* *end_out: the character pos points at on return */
+__CPROVER_requires(LINE_OK(line, n, off) && HEAD4(line, off) && FRESH_OUT(off_out) && FRESH_OUT(end_out))
+__CPROVER_assigns(gp_line, gpp_pos, *off_out, *end_out)
+__CPROVER_ensures(POS_IN_LINE(off, *off_out) && *end_out == line[*off_out])
 __CPROVER_ensures(__CPROVER_return_value == 0 ==> *off_out == off)
-__CPROVER_ensures(__CPROVER_return_value != 0 ==> (KW_MIN <= *off_out - off && *off_out - off <= KW_MAX && LOWER(line[off]) == KW_FIRST))
-__CPROVER_ensures(__CPROVER_return_value != 0 ==> (line[*off_out] == 0 || IS_SPACE(line[*off_out]) || IS_SENSE(line[*off_out])))
+__CPROVER_ensures(__CPROVER_return_value != 0 ==> (KW_MIN <= *off_out - off && *off_out - off <= KW_MAX && CI(v_c0, KW_FIRST, KW_FIRST - 32)))
+__CPROVER_ensures(__CPROVER_return_value != 0 ==> (*end_out == 0 || IS_SPACE(*end_out) || IS_SENSE(*end_out)))
 ;
-void h_hasKeyword(void) { char* line; int n, off; int* off_out; havoc_ghosts(); w_hasKeyword(line, n, off, off_out); CANARY(); }
+void h_hasKeyword(void) { char* line; int n, off; int* off_out; int* end_out; havoc_ghosts(); w_hasKeyword(line, n, off, off_out, end_out); CANARY(); }
 #endif
 
 /* ======================================================================================================= */
@@ -139,11 +143,11 @@ __CPROVER_ensures(__CPROVER_pointer_in_range_dfcc(__CPROVER_old(*pos), *pos, gp_
 ;
 /* every call site checks LPFisInfinity(pos) first */
 double w_readInfinity(char* line, int n, int off, int* off_out)
-__CPROVER_requires(LINE_OK(line, n, off) && FRESH_OUT(off_out))
-__CPROVER_requires((line[off] == '-' || line[off] == '+') && LOWER(line[off + 1]) == 'i' && LOWER(line[off + 2]) == 'n' && LOWER(line[off + 3]) == 'f')
+__CPROVER_requires(LINE_OK(line, n, off) && HEAD4(line, off) && FRESH_OUT(off_out))
+__CPROVER_requires(IS_INF4)
 __CPROVER_assigns(gp_line, gpp_pos, *off_out)
 __CPROVER_ensures(POS_IN_LINE(off, *off_out) && off < *off_out)
-__CPROVER_ensures(__CPROVER_return_value == (line[off] == '-' ? -(SOPLEX_DEFAULT_INFINITY) : (SOPLEX_DEFAULT_INFINITY)))
+__CPROVER_ensures(__CPROVER_return_value == (v_c0 == '-' ? -(SOPLEX_DEFAULT_INFINITY) : (SOPLEX_DEFAULT_INFINITY)))
 ;
 void h_readInfinity(void) { char* line; int n, off; int* off_out; havoc_ghosts(); w_readInfinity(line, n, off, off_out); CANARY(); }
 #endif
